@@ -497,6 +497,7 @@ type CallRule struct {
 	Pattern  string // callee pattern; for stores: "store T.f"
 	IsStore  bool
 	On       string // optional canonical receiver/first-arg path filter
+	With     string // optional: some argument's source text must equal this
 	Requires []Clause
 	Sets     []GhostSet
 	Assume   []Clause // assumed facts about the call's results (listed as assumptions)
@@ -796,7 +797,11 @@ func parseContractFile(path, pkgPath string) (*SpecFile, error) {
 			}
 			curLoop = nil
 			pat := strings.TrimSpace(rest)
-			on := ""
+			on, with := "", ""
+			if i := strings.Index(pat, " with "); i >= 0 {
+				with = strings.TrimSpace(pat[i+6:])
+				pat = strings.TrimSpace(pat[:i])
+			}
 			if i := strings.Index(pat, " on "); i >= 0 {
 				on = strings.TrimSpace(pat[i+4:])
 				pat = strings.TrimSpace(pat[:i])
@@ -807,6 +812,9 @@ func parseContractFile(path, pkgPath string) (*SpecFile, error) {
 			}
 			if on != "" {
 				lbl += "@" + sanitizeLabel(on)
+			}
+			if with != "" {
+				lbl += "@with." + sanitizeLabel(with)
 			}
 			// disambiguate duplicates
 			base := lbl
@@ -822,7 +830,7 @@ func parseContractFile(path, pkgPath string) (*SpecFile, error) {
 				}
 				lbl = fmt.Sprintf("%s~%d", base, k)
 			}
-			curCall = &CallRule{Label: lbl, Pattern: pat, On: on, IsStore: kw == "store"}
+			curCall = &CallRule{Label: lbl, Pattern: pat, On: on, With: with, IsStore: kw == "store"}
 			cur.Calls = append(cur.Calls, curCall)
 		case "set":
 			if curCall == nil {
